@@ -266,6 +266,19 @@ def generate():
                 continue
             for pos in positions(n):
                 yield ("misplaced-parameter", {"incorrectFormat", "badValue"}, mk(with_attr(plain_fields(shape, n), pos, fa)))
+    # the sole field of a variant / struct is designated without a marker, but its attributes are still validated
+    for tattrs, a, classes in [(["#[educe(Deref)]"], "Deref(x)", {"incorrectFormat", "badValue"}), (["#[educe(Deref)]"], "Deref = true", {"incorrectFormat", "badValue"}),
+                               (["#[educe(Deref)]"], "Deref, Deref", {"reuseTrait"}),
+                               (["#[educe(Deref, DerefMut)]"], "DerefMut(x)", {"incorrectFormat", "badValue"}), (["#[educe(Deref, DerefMut)]"], "DerefMut = true", {"incorrectFormat", "badValue"}),
+                               (["#[educe(Deref, DerefMut)]"], "DerefMut, DerefMut", {"reuseTrait"}), (["#[educe(Deref, DerefMut)]"], "Deref, DerefMut(x)", {"incorrectFormat", "badValue"}),
+                               (["#[educe(Into(u8))]"], "Into(u8, zzz)", {"incorrectFormat", "badValue"}), (["#[educe(Into(u8))]"], "Into", {"incorrectFormat", "badValue"})]:
+        fa = "#[educe(%s)]" % a
+        for shape in SHAPES:
+            yield ("sole-field-attribute-malformed", classes, item("struct", "S", tattrs, [("", shape, [], with_attr(plain_fields(shape, 1), 0, fa))]))
+            for vpos in (0, 1):
+                vs = [("A", "tuple", [], plain_fields("tuple", 1))]
+                vs.insert(vpos, ("B", shape, [], with_attr(plain_fields(shape, 1), 0, fa)))
+                yield ("sole-field-attribute-malformed", classes, item("enum", "E", tattrs, vs))
     # union fields accept nothing for Debug / PartialEq / Hash / Clone
     for t, a in [("Debug(unsafe)", "Debug(ignore)"), ("Debug(unsafe)", "Debug(method(m))"), ("Debug(unsafe)", "Debug = x"), ("PartialEq(unsafe)", "PartialEq(ignore)"),
                  ("PartialEq(unsafe)", "PartialEq(method(m))"), ("Hash(unsafe)", "Hash(method(m))"), ("Hash(unsafe)", "Hash = false"), ("Clone", "Clone(method(m))"),
